@@ -187,7 +187,7 @@ def run(ctx):
             thismod = Obj("thismod", {}) if present else None
             env = {"thismod": _ModDict() if present else None, "nom": list(nom)}
             try:
-                out = Interp(env, {}, {}, cls_name=b.name).run(A.strip_docstring(col.node.body))
+                out = Interp(env, {}, AutoRegion(), cls_name=b.name).run(A.strip_docstring(col.node.body))
                 mk = out.get("mask")
                 if list(mk) == [present, present]:
                     ctx.holds(r3, f"{b.relpath}::{b.name}.collect [{'declared' if present else 'not declared'}]", f"mask = {list(mk)}")
@@ -197,6 +197,7 @@ def run(ctx):
                     lo_k, hi_k = ("lo_data", "hi_data") if key == "histosys" else ("lo", "hi")
                     lo_v, hi_v = out[lo_k], out[hi_k]
                     flat = lambda z: "".join(str(to_poly(q)) for q in (z if isinstance(z, list) else [z]))
+                    flat = lambda z: "".join(str(to_poly(q)) for q in (z if isinstance(z, list) else [z])).replace("lohi_same_value_1", "")
                     if "lo" in flat(lo_v) and "hi" in flat(hi_v) and "hi" not in flat(lo_v) and "lo" not in flat(hi_v):
                         ctx.holds(r6, f"{b.relpath}::{b.name}.collect", "down variation <- spec lo, up variation <- spec hi")
                     else:
@@ -315,7 +316,8 @@ class _ModData(dict):
 
     def __getitem__(self, k):
         if k in ("lo_data", "hi_data"):
-            return [Poly.atom(f"{k}0"), Poly.atom(f"{k}1")]
+            # bin 1 carries the SAME value in the down and the up template (a same-sign variation, different from the nominal)
+            return [Poly.atom(f"{k}0"), Poly.atom("lohi_same_value_1")]
         return Poly.atom(f"data_{k}")
 
 
